@@ -234,4 +234,4 @@ def search(rng, ops, broken):
 
 
 # tie theorems (substrings of SLV.Gen.*Tie theorem names) this property's operators depend on
-TIE = ['compute_simlex', 'compute_base_rate', 'gen_fuse', 'discount', 'projection', 'max_uncertainty', 'uncertainty_maximized', 'gen_mbr', 'deduce_of', 'inverse', 'abduce', 'product', 'merge', 'normalize', 'Simplex_normalized', 'projections']
+TIE = ['compute_simlex', 'compute_base_rate', 'gen_fuse', 'discount', 'projection', 'max_uncertainty', 'uncertainty_maximized', 'gen_mbr', 'deduce_of', 'inverse', 'abduce', 'product', 'merge', 'normalize', 'Simplex_normalized', 'projections', 'gen_is_in_range_eq', 'gen_in_unit_interval_eq', 'gen_is_one_eq', 'gen_is_zero_eq', 'gen_check_unit_interval_eq', 'gen_check_is_one_eq']
